@@ -115,6 +115,12 @@ func newResult(t reflect.Type, opts resultOptions) (result, error) {
 				return nil, newErrInvalidInput(fmt.Sprintf(
 					"flatten can be applied to slices only: %v is not a slice", t), nil)
 			}
+			if len(opts.As) > 0 {
+				// As replaces the slice type with an interface type, of
+				// which there are no elements to flatten.
+				return nil, newErrInvalidInput(fmt.Sprintf(
+					"cannot use dig.As with flatten: group %q of %v", g.Name, t), nil)
+			}
 			rg.Type = rg.Type.Elem()
 		}
 		return rg, nil
